@@ -534,6 +534,12 @@ def trxcon_systematic(ctx, binary):
 				if ch == " ":
 					forms.add((rsp[:k] + rsp[k + 1:]).encode() + b"\0")
 					forms.add((rsp[:k] + "  " + rsp[k + 1:]).encode() + b"\0")
+			# responses filling the receive buffer to the last octets, with and without any separator
+			for n in (1000, 1016, 1017, 1018, 1019, 1020, 1021, 1022, 1023, 1024, 1025, 1030, 2000):
+				for body in (b"RSP " + b"A" * (n - 4), ("RSP %s" % p[0]).encode() + b"A" * (n - 4 - len(p[0])),
+						("RSP %s " % p[0]).encode() + b"7" * (n - 5 - len(p[0])), b"RSP" + b" " * (n - 3)):
+					forms.add(body)
+					forms.add(body[:-1] + b"\0")
 			for f in sorted(forms):
 				cases.append(["K " + cur, "R " + (f.hex() or "-"), "t", "s"])
 				ctx.count("trxcon_systematic_responses")
